@@ -57,3 +57,51 @@ def main():
 
 if __name__ == "__main__":
     main()
+
+
+def main_more():
+    """falling characteristics built from a gradient; equality with the serialised copy after an evaluation; support points replaced after
+    an evaluation"""
+    fails = []
+    # (1) from_gradient: the object passes through its own support points, for rising and falling gradients
+    for zc, grad, y_min, y_max in ((-95., 100., 10., 20.), (115., -100., 10., 20.), (3., -0.5, 1., 2.)):
+        net = pp.create_empty_network()
+        c = Characteristic.from_gradient(net, zc, grad, y_min, y_max)
+        for xv, yv in zip(c.x_vals, c.y_vals):
+            if not np.isclose(float(c(xv)), yv, atol=1e-9):
+                fails.append(f"Characteristic.from_gradient(zero_crossing={zc}, gradient={grad}, y_min={y_min}, y_max={y_max}): support point "
+                             f"({xv:.4f}, {yv}) but c({xv:.4f}) = {float(c(xv)):.4f}")
+                break
+        xm = (0.5 * (y_min + y_max) - zc) / grad
+        if not np.isclose(float(c(xm)), 0.5 * (y_min + y_max), atol=1e-9):
+            fails.append(f"Characteristic.from_gradient(zero_crossing={zc}, gradient={grad}, ...): value at the middle of the ramp is "
+                         f"{float(c(xm)):.4f}, the line gives {0.5 * (y_min + y_max):.4f}")
+    x, y = np.array([1., 2., 3., 5., 8.]), np.array([1., 3., 3.5, 8., 20.])
+    makers = [("Characteristic", lambda net: Characteristic(net, x, y)), ("Spline-default", lambda net: SplineCharacteristic(net, x, y)),
+              ("Spline-Pchip", lambda net: SplineCharacteristic(net, x, y, interpolator_kind="Pchip")),
+              ("LogSpline-linear", lambda net: LogSplineCharacteristic(net, x, y, kind="linear"))]
+    for name, mk in makers:
+        # (2) an evaluated object equals its serialised copy (and an identical object that has not been evaluated)
+        net = pp.create_empty_network()
+        c = mk(net)
+        twin = mk(pp.create_empty_network())
+        c(3.0)
+        back = pp.from_json_string(pp.to_json(net))
+        c2 = back.characteristic.object.at[c.index]
+        if not (c == c2):
+            fails.append(f"{name}: after one evaluation the object no longer equals its JSON round trip (same data, same values)")
+        if not (c == twin):
+            fails.append(f"{name}: after one evaluation the object no longer equals an identical object that has not been evaluated")
+        # (3) support points replaced after an evaluation: the object passes through the new points
+        c = mk(pp.create_empty_network())
+        c(3.0)
+        c.y_vals = 2 * y
+        got = np.array([float(c(v)) for v in x])
+        if not np.allclose(got, 2 * y, atol=1e-9):
+            fails.append(f"{name}: y_vals replaced by {list(2 * y)} after an evaluation, the object still returns {np.round(got, 4).tolist()} at its "
+                         f"x points")
+    for f in fails:
+        print("REPRODUCED:", f)
+    if not fails:
+        print("not reproduced: characteristics pass through their (current) support points and equal their serialised copies")
+    sys.exit(1 if fails else 0)
